@@ -158,6 +158,13 @@ impl MqttState {
         }
         self.outgoing_rel.clear();
 
+        // a publish parked on a packet-id collision was requested after all of the above
+        // and is as much part of the session: it is replayed behind them and parks again
+        // behind the holder of its id, be that a retransmitted publish or a release
+        if let Some(publish) = self.collision.take() {
+            pending.push(Request::Publish(publish));
+        }
+
         // remove packed ids of incoming qos2 publishes
         self.incoming_pub.clear();
 
